@@ -138,11 +138,17 @@ def run_history(ctx, ops, is_async):
         try:
             if name == 'add':
                 _, r, f = op
-                regs[r].add(fns[f])
+                if step % 2:
+                    regs[r].add()(fns[f])            # the `@registry.add()` decorator-factory form
+                else:
+                    regs[r].add(fns[f])              # the bare `@registry.add` form
                 put(model[r], join(PREFIXES[r], FN_NAMES[f]), f'fn{f}')
             elif name == 'add_named':
                 _, r, f, nm = op
-                regs[r].add(fns[f], nm)
+                if step % 2:
+                    regs[r].add(name=nm)(fns[f])     # `@registry.add(name=...)`
+                else:
+                    regs[r].add(fns[f], nm)
                 put(model[r], join(PREFIXES[r], nm), f'fn{f}')
             elif name == 'add_methods_fn':
                 _, r, f = op
@@ -157,7 +163,10 @@ def run_history(ctx, ops, is_async):
                 put(model[r], nm, f'fn{f}')
             elif name == 'view':
                 _, r, v, vp = op
-                regs[r].view(views[v], prefix=vp)
+                if step % 2:
+                    regs[r].view(prefix=vp)(views[v])    # `@registry.view(prefix=...)`
+                else:
+                    regs[r].view(views[v], prefix=vp)
                 for m, token in VIEW_PUBLIC[v].items():
                     put(model[r], join(PREFIXES[r], vp, m), token)
                 prefixes_in_play.add(join(PREFIXES[r], vp))
